@@ -578,7 +578,7 @@ class Expression:
         return Absolute(self)
 
     def switch_endian(self, fmt):
-        if isinstance(fmt, str) and len(fmt) > 1:
+        if isinstance(fmt, str) and len(fmt) > 1 and calcsize(fmt) > 1:
             return SwitchEndian(self, fmt)
         return self
 
@@ -595,6 +595,9 @@ class Expression:
 
     def load(self, dst, src, offset, fmt, long):
          self.ebpf.append(Opcode.LD + fmt_to_opcode(fmt), dst, src, offset, 0)
+         self.extend_sign(dst, fmt, long)
+
+    def extend_sign(self, dst, fmt, long):
          if isinstance(fmt, str) and (fmt in "hb" or long and fmt == 'i'):
              shift = (64 if long else 32) - calcsize(fmt) * 8
              regs = self.ebpf.sr if long else self.ebpf.sw
@@ -954,9 +957,14 @@ class Memory(Expression):
     @contextmanager
     def calculate(self, dst, long, force=False):
         if self.has_endian():
-            with self.without_endian().switch_endian(self.fmt) \
-                 .calculate(dst, long, force) as (dst, long):
-                yield dst, long
+            # swap the bytes of the unsigned value, extend the sign afterwards
+            fmt = self.fmt[-1]
+            plain = Memory(self.ebpf, fmt.upper() if fmt in "bhiq" else fmt,
+                           self.address)
+            with plain.switch_endian(self.fmt) \
+                 .calculate(dst, long, force) as (dst, _):
+                self.extend_sign(dst, fmt, long)
+                yield dst, fmt in "QqAx"
                 return
         with ExitStack() as exitStack:
             if isinstance(self.address, Sum):
